@@ -84,6 +84,7 @@ type msgDef struct {
 	RDst    ev.B   `json:"rdst,omitempty"`    // Ripple-style args: var-bytes(RDst) || u64(RAmt)
 	RAmt    uint64 `json:"ramt,omitempty"`
 	RArgs   bool   `json:"rargs,omitempty"`
+	ReqLen  int    `json:"reqlen,omitempty"` // > 0: Args are padded so that the outbound request record is exactly ReqLen bytes
 }
 
 type opDef struct {
@@ -348,7 +349,44 @@ func (e *engine) resolveMsg(i int) *refMsg {
 	default:
 		m.Args = d.Args
 	}
+	if d.ReqLen > 0 {
+		padToRequestLen(m, d.ReqLen, byte(i))
+	}
 	return m
+}
+
+// request-record sizes at which buffers, length prefixes and tree hashing switch regime
+var reqLenClasses = []int{255, 256, 257, 511, 512, 513, 1023, 1024, 1025, 4095, 4096, 65535, 65536}
+
+func isReqLenClass(n int) bool {
+	for _, c := range reqLenClasses {
+		if c == n {
+			return true
+		}
+	}
+	return false
+}
+
+// padToRequestLen replaces m.Args by derived bytes such that the request record
+// (var-bytes(32-byte relay tx hash) || u64 source chain || message) is exactly total bytes long.
+// Lengths the var-bytes prefix cannot hit (prefix switch at 0xFD / 0x10000) are reached by lengthening
+// the method name by one or two bytes. Returns false (message untouched) if total is too small.
+func padToRequestLen(m *refMsg, total int, seed byte) bool {
+	saved := m.Args
+	m.Args = nil
+	base := 33 + 8 + len(m.encode()) - 1 // without the length prefix of Args
+	for extra := 0; extra <= 2; extra++ {
+		for _, pre := range []int{1, 3, 5} {
+			n := total - base - extra - pre
+			if n >= 0 && len(refVarUint(uint64(n))) == pre {
+				m.Method = append(append([]byte(nil), m.Method...), bytes.Repeat([]byte{'m'}, extra)...)
+				m.Args = fill(n, seed)
+				return true
+			}
+		}
+	}
+	m.Args = saved
+	return false
 }
 
 func (e *engine) isRegisteredID(id uint64) bool {
@@ -844,6 +882,9 @@ func (e *engine) submit(t *importTx, want outcome, class string, exp *refMsg, vk
 		e.done[doneK(t.src, exp.CCID)] = true
 		e.acceptedInBlock++
 		e.routersSeen[routerName[router]]++
+		if isReqLenClass(len(wantVal)) {
+			e.ctx.Label(fmt.Sprintf("accepted-request-size:%d", len(wantVal)))
+		}
 		if e.f == fC22 && len(exp.Args) > 0 && e.acceptedInBlock >= 2 {
 			e.ctx.NonTrivial()
 		}
